@@ -320,3 +320,6 @@ func vFSSize(path string) int {
 func vFSRemove(path string)             { os.Remove(path) }
 func vFSLog() string                    { return "" }
 func vRunUntilCrash(f func()) bool      { f(); return false }
+func vSchedFork(on bool) {}
+func vFSOverwrites() int { return 0 }
+func vFSWrite(path string, data []byte) { os.WriteFile(path, data, 0644) }
